@@ -97,9 +97,18 @@ func genEpisode(r *hx.Rng, ip *interp, run func(string) string, n int, st *genSt
 	// universe
 	nid := 3 + r.Intn(3)
 	for i := 0; i < nid; i++ {
-		l := r.Pick(1, 2, 8, 20, 32, 32, 33)
+		l := r.Pick(1, 2, 8, 20, 31, 32, 32, 33)
 		b := r.Bytes(l)
 		b[0] |= 1 // not all-zero
+		if l > 1 && r.Chance(1, 5) {
+			b[0] = 0 // leading zero byte (big-endian encodings, groupsig.ID normalisation): still a distinct key
+			b[l-1] |= 1
+			st.inc("id-leading-zero")
+		}
+		if l > 1 && r.Chance(1, 8) {
+			b[l-1] = 0 // trailing zero byte
+			st.inc("id-trailing-zero")
+		}
 		e.ids = append(e.ids, b)
 	}
 	search := st.m["searcher"] > 0 // searcher: empty initial registry, real-size balances, well-formed accounts
@@ -117,6 +126,15 @@ func genEpisode(r *hx.Rng, ip *interp, run func(string) string, n int, st *genSt
 	for i := 0; i < na; i++ {
 		b := r.Bytes(20)
 		b[0] |= 0x80 // never looks like JSON, never collides with short accounts' addresses
+		if r.Chance(1, 6) {
+			b[0] = 0 // address with a leading zero byte
+			b[1] |= 0x80
+			st.inc("account-leading-zero")
+		}
+		if r.Chance(1, 8) {
+			b[19] = 0 // trailing zero byte (left-aligned BytesToAddress padding looks the same)
+			st.inc("account-trailing-zero")
+		}
 		e.accts = append(e.accts, b)
 	}
 	e.srcs = append(e.srcs, e.accts...)
@@ -297,6 +315,10 @@ func genEpisode(r *hx.Rng, ip *interp, run func(string) string, n int, st *genSt
 				}
 			default:
 				am = strconv.FormatUint(uint64(r.Intn(int(stake%100000)+2)), 10)
+			}
+			if r.Chance(1, 12) {
+				am = "000" + am // ParseUint accepts leading zeros
+				st.inc("refund-amount-leading-zeros")
 			}
 			run(fmt.Sprintf("refund %s %s %s", h(src), h(id), am))
 		case k < 82:
